@@ -1,14 +1,15 @@
-SPECIFICATION ISpec
+SPECIFICATION SimSpec
 CONSTANTS
-  Universe = "quick"
+  Universe = "sim"
   Bug = "none"
   Contracts <- MCContracts
   Groups <- MCGroups
   InitTables <- MCInitTables
-  MaxDepth = 2
-  MaxChanges = 2
-  MaxTx = 2
+  MaxDepth = 3
+  MaxChanges = 3
+  MaxTx = 3
   WithTry = TRUE
   WithNoRS = TRUE
-INVARIANTS ImplAgrees Coherent
+  TxSteps = 14
+INVARIANT Emit
 CHECK_DEADLOCK FALSE
